@@ -112,6 +112,10 @@ fn json_to_value(v: &serde_json::Value) -> Value {
         serde_json::Value::Null => Value::Nil,
         serde_json::Value::Bool(b) => Value::Bool(*b),
         serde_json::Value::Number(n) => Value::Num(n.as_f64().unwrap()),
+        // the numbers JSON5 has and JSON has not, in the model texts of `inject` values
+        serde_json::Value::String(s) if s == "$inf" => Value::Num(f64::INFINITY),
+        serde_json::Value::String(s) if s == "$-inf" => Value::Num(f64::NEG_INFINITY),
+        serde_json::Value::String(s) if s == "$nan" => Value::Num(f64::NAN),
         serde_json::Value::String(s) => Value::str(s),
         serde_json::Value::Array(a) => {
             let t = Rc::new(RefCell::new(Table::default()));
@@ -304,8 +308,20 @@ pub fn run(tier: Tier) -> Report {
     // inject_global_value
     // the last ones look like the description of a require mode, which rule properties can also hold
     let values = ["null", "true", "false", "0", "1.5", "\"s\"", "[1,2]", "{\"a\":1}", "[1]", "[0]", "[1,false]", "{\"name\":\"path\"}", "{\"name\":\"luau\",\"a\":{\"b\":\"c\"}}", "\"path\"", "[\"path\"]"];
-    for v in values {
-        let jv: serde_json::Value = serde_json::from_str(v).unwrap();
+    // JSON5 values that JSON cannot spell: (text in the configuration, model with `$inf` / `$-inf` / `$nan` for the numbers)
+    let json5_values = [
+        ("Infinity", "\"$inf\""),
+        ("-Infinity", "\"$-inf\""),
+        ("NaN", "\"$nan\""),
+        ("1e400", "\"$inf\""),
+        ("[Infinity,1]", "[\"$inf\",1]"),
+        ("[1,-Infinity,2]", "[1,\"$-inf\",2]"),
+        ("{a:NaN}", "{\"a\":\"$nan\"}"),
+        ("{a:[1e400]}", "{\"a\":[\"$inf\"]}"),
+        ("{a:-1e999,b:1}", "{\"a\":\"$-inf\",\"b\":1}"),
+    ];
+    for (v, model) in values.iter().map(|v| (*v, *v)).chain(json5_values.iter().cloned()) {
+        let jv: serde_json::Value = serde_json::from_str(model).unwrap();
         let mut bodies: Vec<String> = vec![
             "return G".into(),
             "return G, _G.G, _G[\"G\"]".into(),
@@ -327,14 +343,20 @@ pub fn run(tier: Tier) -> Report {
         match &jv {
             serde_json::Value::Object(_) => {
                 bodies.push("return G.a, G[\"a\"], G.b".into());
+                bodies.push("return G.a == nil, type(G.a), type(G.a) == \"table\" and G.a[1], type(G.a) == \"number\" and G.a ~= G.a".into());
                 bodies.push("return _G.G.a, _G[\"G\"].a, _G.G[\"a\"], _G[\"G\"][\"a\"]".into());
                 bodies.push("local function f(_G) return _G.G.a end\nreturn f({G = {a = 2}})".into());
                 bodies.push("local f = G.a\nreturn f + 1".into());
             }
             serde_json::Value::Array(_) => {
+                bodies.push("return G[1], G[2], G[3], G[1] == nil, G[2] == nil".into());
                 bodies.push("return G[1], G[2], #G, G[3]".into());
                 bodies.push("return _G.G[1], _G[\"G\"][2], #_G.G".into());
                 bodies.push("local s = 0 for _, v in ipairs(G) do s = s + v end\nreturn s".into());
+            }
+            serde_json::Value::String(m) if m.starts_with('$') => {
+                bodies.push("return _G.G == G, G ~= G".into());
+                bodies.push("return G + 1, -G, G == 0, G > 0, G < 0, 1 / G".into());
             }
             serde_json::Value::String(_) => {
                 bodies.push("return #G, G .. \"!\", G:upper(), (G):len()".into());
